@@ -172,6 +172,39 @@ pub fn c09(tier: &str) -> i32 {
         }
     }
 
+    // (a') kind-keyed closure with value deviations: reaches states with memo entries and every mutator gate/value
+    //      combination at a small depth (the alias-exact search above is bounded by path length instead)
+    for p in (0..=5u8).rev() {
+        for (label, cfg) in [
+            ("none", Cfg::new(p).flags(true, true)),
+            ("full-safe@0.5", Cfg::new(p).flags(true, true).muts(&FULL, 0.5, false)),
+            ("full-unsafe@0.5", Cfg::new(p).flags(true, true).muts(&FULL, 0.5, true)),
+            ("full-unsafe-reversed@1.0", Cfg::new(p).flags(true, true).muts(&{ let mut v = FULL.to_vec(); v.reverse(); v }, 1.0, true)),
+        ] {
+            let has_m = !cfg.mutators.is_empty();
+            let boxes: Vec<(usize, usize, usize)> = match (quick, has_m) {
+                (true, false) => vec![(2, 2, 1)],
+                (true, true) => vec![(1, 1, 1), (2, 2, 0)],
+                (false, false) => vec![(3, 2, 1), (2, 1, 2)],
+                (false, true) => vec![(2, 2, 1), (1, 1, 2)],
+            };
+            for (d, m, b) in boxes {
+                let opts = Opts { max_depth: d, max_memo: m, dev_budget: b, frame: FrameSel::Both, ref_in_key: false, ..Opts::default() };
+                let t0 = Instant::now();
+                let ex = Explorer { base_cfg: cfg.clone(), opts, monitor: &guard, xval_full: Default::default() };
+                let out = ex.explore(None);
+                let l = format!("P{p}/{label}/D{d}M{m}b{b}");
+                if verbose {
+                    eprintln!("plan {l:<40} states={:>8} transitions={:>10} {:.2}s", out.stats.states, out.stats.transitions, t0.elapsed().as_secs_f64());
+                }
+                rep.add_stats(&l, &out.stats);
+                for fd in &out.found {
+                    rep.finding(fd);
+                }
+            }
+        }
+    }
+
     // (b) every byte string of length <= 2 through the public API, several ranges and configurations
     let strings = short_strings();
     let mut cfgs: Vec<Cfg> = vec![];
@@ -266,7 +299,7 @@ pub fn c09(tier: &str) -> i32 {
     }
 
     // (d) large opcode counts in child processes on a 2 MiB thread (the stack a rayon worker / spawned thread has)
-    let t_big: Vec<usize> = if quick { vec![10_000] } else { vec![10_000, 30_000] };
+    let t_big: Vec<usize> = vec![10_000, 30_000];
     let watchdog = Duration::from_secs(if quick { 60 } else { 180 });
     let mut child_jobs: Vec<(u8, usize, Vec<u8>, Vec<u8>, String, String)> = vec![];
     for p in 0..=5u8 {
